@@ -1,6 +1,7 @@
 import NgoVerif.Meta.Cover
 import NgoVerif.Meta.M4
 import NgoVerif.Model.Order
+import NgoVerif.Proofs.C20heads
 /-!
 # C20 — generated domain and order predicates describe the real domain
 
@@ -66,6 +67,14 @@ theorem C20_order_spec_max (l : List Int) (m : Int) (h : (orderSpec l).2.1 = som
   · intro c hc
     rw [← hlast]
     exact Cover.last_greatest _ hne (sorted_sortInts l) c ((mem_sortInts c l).mpr hc)
+
+/-- **what the domain machinery adds is deterministic**: every rule answered by any request of the model of
+`DomainPredicates` (`create_domain`, `create_next_pred_for_annotated_pred`, `create_chain_pred_for_annotated_pred`),
+in any state, has a plain positive atom head - no choice, disjunction or aggregate can enter a program through it.
+(The model is tied to `dependency.py` by `corr_dependency.py` on every run.) -/
+theorem C20_generated_rules_plain (st st' : Dep.DomState) (r : Dep.Req) (rs : List Stm)
+    (h : Dep.runReq st r = (.ok rs, st')) : rs.all Proofs.C20heads.plainRule = true :=
+  Proofs.C20heads.runReq_plain st st' r rs h
 
 example : orderSpec [5, 1, 3, 3, -2] = (some (-2), some 5, [(-2, 1), (1, 3), (3, 5)]) := by decide
 
